@@ -286,6 +286,31 @@ def rollover_guard_reads_assigned_value():
     return all(res)
 
 
+def seqno_reset_guard_is_strict_only():
+    """AST of Transport._activate_inbound / _activate_outbound: the `if` whose body calls `reset_seqno_in()` /
+    `reset_seqno_out()` tests exactly `self.agreed_on_strict_kex` — no further conjunct (cipher family, AEAD …).
+    None if a reset call is not found."""
+    import paramiko.transport as T
+
+    res = []
+    for fn, meth in ((T.Transport._activate_inbound, "reset_seqno_in"), (T.Transport._activate_outbound, "reset_seqno_out")):
+        try:
+            tree = ast.parse(textwrap.dedent(inspect.getsource(fn)))
+        except (OSError, SyntaxError):
+            return None
+        found = None
+        for n in ast.walk(tree):
+            if isinstance(n, ast.If) and any(isinstance(c, ast.Call) and isinstance(c.func, ast.Attribute)
+                                             and c.func.attr == meth for x in n.body for c in ast.walk(x)):
+                t = n.test
+                found = (isinstance(t, ast.Attribute) and t.attr == "agreed_on_strict_kex"
+                         and isinstance(t.value, ast.Name) and t.value.id == "self")
+        if found is None:
+            return None
+        res.append(found)
+    return all(res)
+
+
 def read_tables():
     """Key sets of every dispatch table, read from live objects of the tree under test."""
     import paramiko
@@ -349,13 +374,16 @@ def lean_tables(tables, consts, total):
         "def runJudgesEveryPacket : Bool := %s\n\n"
         "/-- Packetizer: the roll-over guard tests the (masked) value that is assigned to the sequence-number counter -/\n"
         "def rolloverGuardReadsAssignedValue : Bool := %s\n\n"
+        "/-- _activate_inbound/_activate_outbound reset the sequence number under `self.agreed_on_strict_kex` alone -/\n"
+        "def seqnoResetGuardIsStrictOnly : Bool := %s\n\n"
         "end PV.Generated.C12\n" % (cl, "true" if total else "false", tables["highestUserauth"], body,
                                       "true" if run_check_order() else "false",
                                       "true" if run_replies_fixed_width() else "false",
                                       "true" if read_message_one_packet_per_call() else "false",
                                       "true" if marker_scan_covers_whole_list() else "false",
                                       "true" if run_judges_every_packet() else "false",
-                                      "true" if rollover_guard_reads_assigned_value() else "false")
+                                      "true" if rollover_guard_reads_assigned_value() else "false",
+                                      "true" if seqno_reset_guard_is_strict_only() else "false")
     )
 
 
